@@ -27,13 +27,66 @@ ASSUMPTIONS = [
 ]
 
 
+def _strip_fast_paths(ctx, repo, fi):
+    """Early returns of split_sync guarded by a test on the words (`if <guard>: ... return out`): the guard must ENTAIL that the bits the fast path drops
+    are zero.  An upper bound on the words as SIGNED int16 does not: words with bit 15 set are negative.  Returns a copy of the function without the
+    guarded blocks (the general chain), for the bit-layout interpreter."""
+    import copy
+    fn = copy.deepcopy(fi.node)
+    du = DefUse(fi.node)
+    keep = []
+    for st_o, st in zip(fi.node.body, fn.body):
+        if not (isinstance(st, ast.If) and not st.orelse and any(isinstance(x, ast.Return) for x in st.body)):
+            keep.append(st)
+            continue
+        t = st_o.test
+        txt = src(t).replace(" ", "")
+        if (".size==0" in txt or "len(" in txt and "==0" in txt) and isinstance(t, ast.Compare):
+            r = [x for x in st_o.body if isinstance(x, ast.Return)][0]
+            ok = isinstance(r.value, ast.Call) and call_name(r.value) in ("zeros", "empty") and "16" in src(r.value)
+            ctx.check(ok, fi, st_o, st_o, "an empty selection decodes to an empty (0, 16) array", f"`{src(r)[:60]}` for an empty input is not an empty (0, 16) array", key="empty-path")
+            continue
+        # value guard: max(<words>) <= C  [and min(<words>) >= 0]
+        conj = t.values if isinstance(t, ast.BoolOp) and isinstance(t.op, ast.And) else [t]
+        upper = lower = None
+        unsigned = False
+        for c_ in conj:
+            if isinstance(c_, ast.Compare) and len(c_.ops) == 1 and isinstance(c_.left, ast.Call) and call_name(c_.left) in ("max", "amax", "min", "amin"):
+                arg = c_.left.args[0] if c_.left.args else getattr(c_.left.func, "value", None)
+                argv = expand_name(du, arg, st_o) if isinstance(arg, ast.Name) else arg
+                atxt = src(argv)
+                if "uint16" in atxt or "uint8" in atxt and "view" in atxt:
+                    unsigned = True
+                if call_name(c_.left) in ("max", "amax") and isinstance(c_.ops[0], (ast.LtE, ast.Lt)):
+                    upper = c_
+                if call_name(c_.left) in ("min", "amin") and isinstance(c_.ops[0], (ast.GtE, ast.Gt)):
+                    lower = c_
+        if upper is None:
+            raise AnalysisError(f"split_sync: guarded early return `{src(t)[:60]}` not understood")
+        sound = unsigned or lower is not None
+        ctx.check(sound, fi, st_o, st_o, "the fast path is taken only when every word has its upper bits clear (unsigned comparison / lower bound too)",
+                  f"the fast path is selected by `{src(upper)[:70]}` on the words as SIGNED int16: a word with bit 15 set is negative and passes the test, so a chunk holding only "
+                  "words below 256 and words >= 0x8000 takes the path that leaves lines 8-15 low - line 15 (and lines 8-14 of those words) is lost; decoding the same "
+                  "word in a different chunk gives a different answer", key="fast-path-guard", name_free=True)
+        if sound:
+            # the fast path itself: columns 0..7 from the low byte, little bit order, the rest zeros
+            body_txt = " ".join(src(x) for x in st_o.body).replace(" ", "")
+            ok = "zeros(" in body_txt and "[:,:8]=" in body_txt and "unpackbits(" in body_txt and "bitorder='little'" in body_txt.replace('"', "'") and "uint8" in body_txt
+            if not ok:
+                raise AnalysisError("split_sync: fast path under a sound guard is not `out[:, :8] = unpackbits(low byte, bitorder='little')` on a zero array")
+            ctx.ok(fi, st_o, st_o, "fast path: lines 0-7 from the low byte in little bit order, lines 8-15 low (their bits are zero under the guard)", key="fast-path")
+    fn.body = keep
+    return fn
+
+
 def d1_bits(ctx):
     ctx.rule("D1", "split_sync: column k of the decoded row is bit k of the word (identity permutation of the label row)")
     repo = ctx.repo
     fi = repo.fn("spikeglx.split_sync")
     param = fi.params[0]
+    main_fn = _strip_fast_paths(ctx, repo, fi)
     try:
-        out = LayoutInterp(param).run(fi.node)
+        out = LayoutInterp(param).run(main_fn)
     except LayoutViolation as e:
         ctx.violation(fi, fi.node, "split_sync chain", str(e), key="layout")
         return
